@@ -40,6 +40,17 @@ pub fn check_file(case: &ProjCase, out: &imp::Outcome, i: usize, which: Which, s
     let id = &case.ids[i];
     let p = out.parse.get(id).ok_or("no parse-stage result")?;
     let v = out.valid.get(id).ok_or("no validated result")?;
+    if case.damaged[i].is_some() {
+        // deliberately malformed member: the file only serves as an import target
+        if p.ast.is_none() {
+            return Err(format!("file {id}: a file whose only defect is one malformed member (ending at its terminator) has no tree"));
+        }
+        st.class("damaged-import-target");
+        return Ok(FileResult {
+            compared: 0,
+            dont_care: Some("damaged file".into()),
+        });
+    }
     if !p.diagnostics.is_empty() {
         return Err(format!("file {id}: well-formed generated document got a syntax-stage diagnostic: {}", cmp::describe(&p.diagnostics[0])));
     }
